@@ -42,6 +42,11 @@ CONSTANTS MinKeys, MaxKeys,  \* key lists of MinKeys..MaxKeys keys
           AllowCancel,       \* the caller's context may end
           EarlyExits,        \* include ring errors (Get fails at key j, InstancesCount() = 0)
           MaxConc,           \* at most this many calls are inside record at the same time (bounds the interleavings)
+          Spawn,             \* the o.Go option: "go" - a spawned function starts at once (default spawner, `go f()`);
+                             \* "deferred" - a caller-supplied spawner (worker pool) starts every spawned function - the
+                             \* replica calls and the cleanup waiter - whenever it likes, in any order (Begin, BeginCleanup);
+                             \* "deferred-addlate" - negative control: a model in which the wait group is armed by the spawned
+                             \* function itself instead of before spawning (MC_neg_addlate.cfg: TLC must refute CleanupAfterAll)
           Record             \* keep the history of environment steps + observations (case generation)
 
 Inst    == 1..NI
@@ -104,7 +109,7 @@ Cases(u) == {c \in CfgSet(u) : ShapeOK(c.reps, c.maxErr, c.nk) /\ (c.noInst => c
 -----------------------------------------------------------------------------
 (* batchTracker.record, one shared-memory access per step.                  *)
 (* pc of a call:  "idle" not selected / not spawned yet, "cb" inside the    *)
-(* callback, then per item:                                                 *)
+(* callback ("spawned": handed to o.Go, not started yet), then per item:                                               *)
 (*   "item"     (yield point batch.record.item) next: err.Store / succeeded.Inc   *)
 (*   "incFail"  next: failedClient.Inc / failedServer.Inc                   *)
 (*   "counted"  (yield point batch.record.counted) next: the first access   *)
@@ -247,10 +252,11 @@ DLast ==
     /\ IF ctx
        THEN SyncExit("ctx") /\ UNCHANGED <<s, cleanG, spawns>>
        ELSE LET called == {i \in Inst : items[i] # <<>>} IN
-            /\ s' = [s EXCEPT !.pending = cfg.nk, !.wg = Cardinality(called),
-                              !.pc = [i \in Inst |-> IF i \in called THEN "cb" ELSE "idle"]]
+            /\ s' = [s EXCEPT !.pending = cfg.nk,
+                              !.wg = (IF Spawn = "deferred-addlate" THEN 0 ELSE Cardinality(called)),   \* wg.Add(len(instances))
+                              !.pc = [i \in Inst |-> IF i \in called THEN (IF Spawn = "go" THEN "cb" ELSE "spawned") ELSE "idle"]]
             /\ spawns' = Cardinality(called) + 1
-            /\ cleanG' = "waiting"
+            /\ cleanG' = (IF Spawn = "go" THEN "waiting" ELSE "spawned")
             /\ main' = "waiting"
             /\ UNCHANGED <<ret, nret, cleaned>>
     /\ UNCHANGED <<cfg, gi, ctx, items, pend, hist>>
@@ -317,6 +323,19 @@ Seg(c) ==
     /\ Log("seg", c, "")
     /\ UNCHANGED <<cfg, main, gi, ctx, items, cleanG, cleaned, nret, ret, spawns, hist>>
 
+(* A caller-supplied spawner (option Go) starts what it was handed when it likes: the function of replica call c    *)
+(* begins (and enters the callback) / the cleanup waiter begins (and reaches wg.Wait()).                            *)
+Begin(c) ==
+    /\ Spawn # "go" /\ s.pc[c] = "spawned" /\ EnvMayMove
+    /\ s' = [s EXCEPT !.pc[c] = "cb", !.wg = (IF Spawn = "deferred-addlate" THEN @ + 1 ELSE @)]
+    /\ Log("begin", c, "")
+    /\ UNCHANGED <<cfg, main, gi, ctx, items, cleanG, cleaned, nret, ret, spawns, hist>>
+BeginCleanup ==
+    /\ Spawn # "go" /\ cleanG = "spawned" /\ EnvMayMove
+    /\ cleanG' = "waiting"
+    /\ Log("beginc", 0, "")
+    /\ UNCHANGED <<cfg, main, gi, ctx, items, s, cleaned, nret, ret, spawns, hist>>
+
 (* The caller's context ends.  It is only read by the main goroutine before it returns.  A driver can end it *)
 (* before the call, inside r.Get (see DGet) or while the call waits.                                           *)
 Cancel ==
@@ -328,7 +347,7 @@ Cancel ==
        ELSE pend' = [NoPend EXCEPT !.on = TRUE, !.a = "cancel"]
     /\ UNCHANGED <<cfg, main, gi, items, s, cleanG, cleaned, nret, ret, spawns, hist>>
 
-Env == Cancel \/ \E c \in Inst : Seg(c) \/ \E o \in Outcome : Release(c, o)
+Env == Cancel \/ BeginCleanup \/ \E c \in Inst : Begin(c) \/ Seg(c) \/ \E o \in Outcome : Release(c, o)
 
 (* Case generation: what a driver sees at a quiescent point. *)
 Obs == [returned |-> main = "returned", kind |-> ret.kind, c |-> ret.c, cleaned |-> cleaned,
@@ -340,14 +359,15 @@ Observe ==
     /\ UNCHANGED <<cfg, main, gi, ctx, items, s, cleanG, cleaned, nret, ret, spawns>>
 
 AllCallsDone == \A c \in Inst : s.pc[c] \in {"idle", "done"}
-Over == main = "returned" /\ AllCallsDone /\ cleanG # "waiting" /\ ~pend.on
+Over == main = "returned" /\ AllCallsDone /\ cleanG \notin {"waiting", "spawned"} /\ ~pend.on
 Finished == Over /\ UNCHANGED vars
 
 Next == Internal \/ Env \/ Observe \/ Finished
 Spec == Init /\ [][Next]_vars
 
 (* Fairness: goroutines of the code run, and every replica eventually answers. The caller need not cancel. *)
-FairSpec == Spec /\ WF_vars(Internal) /\ \A c \in Inst : WF_vars(\E o \in Outcome : Release(c, o))
+FairSpec == Spec /\ WF_vars(Internal) /\ WF_vars(BeginCleanup)
+                 /\ \A c \in Inst : WF_vars(\E o \in Outcome : Release(c, o)) /\ WF_vars(Begin(c))
 
 -----------------------------------------------------------------------------
 (* The property. *)
@@ -356,7 +376,8 @@ RetKinds == {"none", "nil", "ctx", "get", "noinst", "rep"}
 TypeOK ==
     /\ main \in {"start", "get", "last", "waiting", "returned"}
     /\ ret.kind \in RetKinds /\ ret.c \in 0..NI
-    /\ \A c \in Inst : s.pc[c] \in StepPcs \cup {"idle", "cb", "done"}
+    /\ \A c \in Inst : s.pc[c] \in StepPcs \cup {"idle", "spawned", "cb", "done"}
+    /\ cleanG \in {"none", "spawned", "waiting", "done"}
     /\ \A k \in Keys : s.rem[k] >= 0 /\ s.succ[k] >= 0
     /\ s.pending >= 0 /\ s.wg >= 0 /\ s.chDone \in 0..1 /\ Len(s.chErr) <= 1
 
@@ -434,7 +455,9 @@ CleanupOnceAfterAll ==
     /\ (cleaned = 1 /\ Dispatched) => (cleanG = "done" /\ AllCallsDone /\ s.wg = 0)
     /\ (cleaned = 1 /\ ~Dispatched) => (main = "returned" /\ ret.kind \in {"ctx", "get", "noinst"})
     /\ (main = "returned" /\ ~Dispatched) => cleaned = 1
-    /\ s.wg = Cardinality({c \in Inst : s.pc[c] \in StepPcs \cup {"cb"}})
+    /\ s.wg = Cardinality({c \in Inst : s.pc[c] \in StepPcs \cup {"cb", "spawned"}})
+(* the clause alone, without the wait-group accounting (what the negative control MC_neg_addlate must violate) *)
+CleanupAfterAll == (cleaned = 1 /\ Dispatched) => AllCallsDone
 CleanupStable == [][cleaned' >= cleaned /\ nret' >= nret /\ (ret.kind # "none" => ret' = ret)]_vars
 
 (* Under fairness (replicas answer, goroutines run; the caller never has to cancel): the call returns, *)
@@ -459,6 +482,6 @@ Behaviour == [cfg |-> [nk |-> cfg.nk, reps |-> cfg.reps, maxErr |-> cfg.maxErr, 
               calls |-> (IF Dispatched THEN items ELSE [i \in Inst |-> <<>>]),   \* callback invocations
               spawns |-> spawns,
               codes |-> [cerr |-> CodesOf("cerr"), serr |-> CodesOf("serr")]]   \* for the DoBatch wrapper
-Emit == (Record /\ ~pend.on /\ AllCallsDone /\ main \in {"waiting", "returned"} /\ Quiescent)
+Emit == (Record /\ ~pend.on /\ AllCallsDone /\ cleanG # "spawned" /\ main \in {"waiting", "returned"} /\ Quiescent)
             => PrintT(ToJson(Behaviour))
 =============================================================================
